@@ -301,6 +301,62 @@ Proof.
     cbn [repeat]. rewrite app_nil_r. rewrite bb_rows_split. reflexivity.
 Qed.
 
+(* ---- pbdesign: the size arithmetic and the tail (slices; the classification by np.frexp and the seed matrices
+   in between are NOT translated: they enter the composite theorem as the premise on pb_select) ----------------- *)
+Lemma iter_shift {A} (f : A -> A) n : forall a, Nat.iter n f (f a) = f (Nat.iter n f a).
+Proof.
+  induction n as [|n IH]; intros a; [reflexivity|].
+  change (Nat.iter (S n) f (f a)) with (f (Nat.iter n f (f a))). now rewrite IH.
+Qed.
+
+Lemma fold_left_iter {A B} (f : A -> A) (l : list B) : forall a,
+  fold_left (fun a _ => f a) l a = Nat.iter (length l) f a.
+Proof.
+  induction l as [|x l IH]; intros a; cbn [fold_left length]; [reflexivity|].
+  rewrite IH. apply iter_shift.
+Qed.
+
+Lemma fold_left_ext_all {A B} (f g : A -> B -> A) : (forall a b, f a b = g a b) ->
+  forall l a, fold_left f l a = fold_left g l a.
+Proof. intros E l; induction l as [|x l IH]; intros a; cbn; [reflexivity|]. now rewrite E, IH. Qed.
+
+Lemma np_hstack_eq : forall X Y : list (list Z), np_hstack X Y = hstack X Y.
+Proof. induction X as [|a X IH]; intros [|b Y]; cbn; try reflexivity. now rewrite IH. Qed.
+
+(* keep = int(n); n = 4 * (int(n / 4) + 1), the float quotient read as an exact rational *)
+Theorem pbdesign_size_gen_eq_model : forall n : nat, pbdesign_size_gen n = (n, 4 * (n / 4 + 1)).
+Proof.
+  intros n. unfold pbdesign_size_gen. cbv zeta.
+  (* `int(n / 4)`; the spelling `n // 4` is already the model's quotient *)
+  try (change (Z.of_nat 4) with 4%Z;
+       replace (Qfloor (inject_Z (Z.of_nat n) / inject_Z 4)) with (Z.of_nat n / 4)%Z
+         by (unfold Qdiv, Qmult, Qinv, inject_Z, Qfloor; cbn [Qnum Qden Pos.mul]; now rewrite Z.mul_1_r);
+       change 4%Z with (Z.of_nat 4); rewrite <- Nat2Z.inj_div, Nat2Z.id).
+  reflexivity.
+Qed.
+
+(* for i in range(e): H = vstack(hstack(H, H), hstack(H, -H));  H = H[:, 1:(keep + 1)];  return np.flipud(H) *)
+Theorem pbdesign_tail_gen_eq_model : forall (H : list (list Z)) (e keep : nat),
+  pbdesign_tail_gen H e keep = rev (map (fun row => firstn keep (skipn 1 row)) (Nat.iter e kron_double H)).
+Proof.
+  intros H e keep. unfold pbdesign_tail_gen. cbv zeta. f_equal.
+  match goal with |- context [fold_left ?f (seq 0 e) H] =>
+    rewrite (fold_left_ext_all f (fun a _ => kron_double a))
+      by (intros; cbv beta; unfold kron_double, vstack, mneg; rewrite !np_hstack_eq; reflexivity)
+  end.
+  rewrite fold_left_iter, seq_length. apply map_ext. intros row. now rewrite Nat.add_sub.
+Qed.
+
+(* the two slices put together with the model's own classification *)
+Theorem pbdesign_gen_compose : forall (n : nat) (H : list (list Z)) (e : nat), n <> 0 ->
+  pb_select (snd (pbdesign_size_gen n)) = Some (H, e) ->
+  pbdesign n = Ok (pbdesign_tail_gen H e (fst (pbdesign_size_gen n))).
+Proof.
+  intros n H e Hn Hs. rewrite pbdesign_size_gen_eq_model in *. cbn [fst snd] in *.
+  unfold pbdesign. replace (n =? 0) with false by (symmetry; now apply Nat.eqb_neq).
+  cbv zeta. rewrite Hs, pbdesign_tail_gen_eq_model. reflexivity.
+Qed.
+
 (* the docstring examples, computed from the translated definitions *)
 Example fullfact_gen_doc : fullfact_gen [2; 4; 3] = map (map Z.of_nat)
   [[0;0;0];[1;0;0];[0;1;0];[1;1;0];[0;2;0];[1;2;0];[0;3;0];[1;3;0];
@@ -312,6 +368,10 @@ Example bbdesign_gen_doc : bbdesign_gen 3 3 = Some
   [[-1;-1;0];[1;-1;0];[-1;1;0];[1;1;0];[-1;0;-1];[1;0;-1];[-1;0;1];[1;0;1];
    [0;-1;-1];[0;1;-1];[0;-1;1];[0;1;1];[0;0;0];[0;0;0];[0;0;0]]%Z.
 Proof. vm_compute. reflexivity. Qed.
+
+(* pbdesign(3) of the docstring: size 4 = 1 * 2^2, seed ones(1, 1) *)
+Example pbdesign_gen_doc : pbdesign_size_gen 3 = (3, 4) /\ pbdesign_tail_gen [[1%Z]] 2 3 = [[-1;-1;1];[1;-1;-1];[-1;1;-1];[1;1;1]]%Z.
+Proof. vm_compute. split; reflexivity. Qed.
 
 Example ff2n_gen_doc : ff2n_gen 3 =
   [[-1;-1;-1];[1;-1;-1];[-1;1;-1];[1;1;-1];[-1;-1;1];[1;-1;1];[-1;1;1];[1;1;1]]%Z.
